@@ -741,9 +741,18 @@ value_t report_t::fn_justify(call_scope_t& args)
   if (args.has<bool>(4) && args.get<bool>(4))
     flags |= AMOUNT_PRINT_COLORIZE;
 
+  // The value is padded to these widths; a width in the billions (or one so
+  // negative that subtracting the text's length from it wraps around) would
+  // pad every line with gigabytes of blanks
+  const int max_width    = 65535;
+  const int first_width  = args.get<int>(1);
+  const int latter_width = args.has<int>(2) ? args.get<int>(2) : -1;
+  if (first_width > max_width || first_width < -max_width ||
+      latter_width > max_width || latter_width < -max_width)
+    throw_(std::runtime_error, _("Width given to justify is too large"));
+
   std::ostringstream out;
-  args[0].print(out, args.get<int>(1),
-                args.has<int>(2) ? args.get<int>(2) : -1, flags);
+  args[0].print(out, first_width, latter_width, flags);
 
   return string_value(out.str());
 }
